@@ -9,6 +9,7 @@ import (
 	"time"
 
 	"github.com/superfly/macaroon"
+	"github.com/superfly/macaroon/auth"
 	"github.com/superfly/macaroon/bundle"
 	"github.com/superfly/macaroon/flyio"
 	"github.com/superfly/macaroon/resset"
@@ -56,6 +57,7 @@ type bWorld struct {
 	sameNonce []string
 	sameTail  []string
 	p5        string // a plain token with three caveats (its verified set has spare capacity)
+	pbare     string // a genuine token without caveats
 }
 
 func newBWorld(r *rng.R) *bWorld {
@@ -364,6 +366,8 @@ func (w *bWorld) pool() (perms, dis, junk []string) {
 	p5, _ := macaroon.New([]byte("k1"), bLocs[0], w.keys["k1"])
 	p5.Add(&flyio.Organization{ID: 1, Mask: resset.ActionAll}, &macaroon.ValidityWindow{NotBefore: 0, NotAfter: 1 << 41}, &macaroon.ValidityWindow{NotBefore: 1, NotAfter: 1 << 41})
 	w.p5 = str(p5)
+	pbare, _ := macaroon.New([]byte("k1"), bLocs[0], w.keys["k1"]) // genuine and without any caveat: its verified caveat set is empty
+	w.pbare = str(pbare)
 	perms = []string{str(p0), str(p1), str(p2), str(p1a), str(pbad), str(punk), str(p3), str(p4), str(p4), str(pempty), str(pkid)}
 	d1 := discharge(p1, bLocs[1], w.tpKeys[bLocs[1]])
 	d2a := discharge(p2, bLocs[1], w.tpKeys[bLocs[1]], &rd)
@@ -421,6 +425,14 @@ func genBundle(c *ctx, cached bool) {
 			st.Add(&cs.Case{Coq: "(KBun (mkTab [] [] [] []) [] [])", Class: "ttl-expiry", Nontrivial: true, Desc: map[string]any{"what": "real-time TTL: miss, hit inside the TTL, then a presentation after the first entry's expiry"}, OracleFail: f})
 		} else {
 			st.Add(&cs.Case{Coq: "(KBun (mkTab [] [] [] []) [CNew 0%N true 1%nat] [[]])", Class: "ttl-expiry", Nontrivial: true, Desc: map[string]any{"what": "real-time TTL scenario (1 s): passed"}})
+		}
+	}
+	if cached {
+		for i := 0; i < 12; i++ {
+			if f := cacheDischargeOracle(c.r.Fork()); f != "" {
+				st.Add(&cs.Case{Coq: "(KBun (mkTab [] [] [] []) [] [])", Class: "cache-vs-plain-discharges", Nontrivial: true, Desc: map[string]any{"what": "genuine presentation cached, then the attacker's presentations: cache answer = plain verifier's answer"}, OracleFail: f})
+				break
+			}
 		}
 	}
 	if !cached {
@@ -698,7 +710,11 @@ func genBundle(c *ctx, cached bool) {
 		if cached && r.P(1, 4) {
 			// two bundles get the same token's result through one cache and then attenuate differently: what one adds never
 			// shows up in (or disappears from) the other
-			s1, s2 := parseHdr(w.p5), parseHdr(w.p5)
+			tok := w.p5
+			if i%2 == 1 {
+				tok = w.pbare
+			}
+			s1, s2 := parseHdr(tok), parseHdr(tok)
 			verifyCached(s1)
 			verifyCached(s2)
 			for _, sc := range [][2]uint64{{s1, 0}, {s2, 3}} {
@@ -708,6 +724,10 @@ func genBundle(c *ctx, cached bool) {
 			}
 			validateAll(s1)
 			validateAll(s2)
+			// and a later presentation of the unattenuated token gets what the verifier gives it
+			s3 := parseHdr(tok)
+			verifyCached(s3)
+			validateAll(s3)
 		}
 		if cached && r.P(1, 4) {
 			// the same permission token with discharges that share a nonce but differ in caveats / signature
@@ -1195,6 +1215,145 @@ func sliceReuseOracle() string {
 	set, err := dm.Verify(key, nil, nil)
 	if err != nil || len(set.Caveats) != 3 {
 		return fmt.Sprintf("a token attenuated with a 3-caveat slice (used before on another token) carries %d caveats (err %v)", len(set.Caveats), err)
+	}
+	return ""
+}
+
+// cacheDischargeOracle (C04, C06, C07, C14 through the caching verifier): a token with a third-party caveat is accepted
+// through a VerificationCache together with its genuine discharge (which carries an attestation); afterwards the same cache is
+// shown the presentations an attacker holding these tokens can make — no discharge, a discharge for the same ticket under a
+// foreign secret, one with the genuine nonce and other contents, an attenuated discharge, a discharge bound to a descendant
+// shown with the ancestor or with a sibling — and every answer (accepted or not, and the verified caveats) has to be the
+// answer of the plain verifier, whose behaviour the model-correspondence streams check.
+func cacheDischargeOracle(r *rng.R) (fail string) {
+	defer func() {
+		if p := recover(); p != nil {
+			fail = fmt.Sprintf("panic verifying through the cache: %v", p)
+		}
+	}()
+	loc, tpLoc := bLocs[0], "https://tp.cache.test"
+	key, ka := macaroon.NewSigningKey(), macaroon.NewEncryptionKey()
+	trusted := map[string][]macaroon.EncryptionKey{}
+	if r.Bool() {
+		trusted[tpLoc] = []macaroon.EncryptionKey{ka}
+	}
+	m, _ := macaroon.New([]byte("k"), loc, key)
+	m.Add(&flyio.Organization{ID: 1, Mask: resset.ActionAll})
+	if err := m.Add3P(ka, tpLoc); err != nil {
+		return "setup: " + err.Error()
+	}
+	ticket, err := m.ThirdPartyTicket(tpLoc)
+	if err != nil {
+		return "setup: " + err.Error()
+	}
+	proof := r.Bool()
+	mkDis := func(uid uint64, bindTo *macaroon.Macaroon) *macaroon.Macaroon {
+		_, dm, err := macaroon.VerifDischargeTicket(ka, tpLoc, ticket, proof)
+		if err != nil {
+			panic("setup: " + err.Error())
+		}
+		u := auth.FlyioUserID(uid)
+		dm.Add(&u)
+		if bindTo != nil {
+			if err := dm.BindToParentMacaroon(bindTo); err != nil {
+				panic("setup: bind: " + err.Error())
+			}
+		}
+		return dm
+	}
+	str := func(ms ...*macaroon.Macaroon) string {
+		var parts []string
+		for _, x := range ms {
+			c, _ := x.Clone()
+			s, err := c.String()
+			if err != nil {
+				panic("setup: " + err.Error())
+			}
+			parts = append(parts, s)
+		}
+		if len(parts) > 1 && r.Bool() {
+			parts[0], parts[len(parts)-1] = parts[len(parts)-1], parts[0]
+		}
+		return strings.Join(parts, ",")
+	}
+	dm := mkDis(7, nil)
+	child, _ := m.Clone()
+	rd := resset.ActionRead
+	child.Add(&rd)
+	sib, _ := m.Clone()
+	wr := resset.ActionWrite
+	sib.Add(&wr)
+	dmBound := mkDis(7, child)
+	// forgeries
+	evil := macaroon.NewSigningKey()
+	forgedKID, _ := macaroon.VerifNewMacaroon(ticket, tpLoc, evil, proof)
+	u8 := auth.FlyioUserID(8)
+	forgedKID.Add(&u8)
+	sameNonce, _ := dm.Clone()
+	sameNonce.UnsafeCaveats = *macaroon.NewCaveatSet(&u8)
+	sameNonce.Tail = make([]byte, len(dm.Tail))
+	type pres struct{ what, hdr string }
+	prime := []pres{
+		{"the token with its genuine discharge", str(m, dm)},
+		{"an attenuated token with a discharge bound to it", str(child, dmBound)},
+	}
+	attack := []pres{
+		{"the token without any discharge", str(m)},
+		{"the token with a discharge minted for its ticket under a foreign secret", str(m, forgedKID)},
+		{"the token with a discharge that has the genuine nonce, other caveats and a made-up tail", str(m, sameNonce)},
+		{"the less-attenuated ancestor with a discharge bound to its descendant", str(m, dmBound)},
+		{"a sibling attenuation with a discharge bound to another attenuation", str(sib, dmBound)},
+		{"the attenuated token with the unbound discharge", str(child, dm)},
+		{"the sibling attenuation with the unbound discharge", str(sib, dm)},
+		{"the token with the genuine and a foreign discharge", str(m, dm, forgedKID)},
+		{"the attenuated token without any discharge", str(child)},
+	}
+	if !proof {
+		att, _ := dm.Clone()
+		att.Add(&macaroon.ValidityWindow{NotBefore: 1, NotAfter: 2})
+		attack = append(attack, pres{"the token with an attenuated copy of its discharge", str(m, att)})
+	}
+	for i := len(attack) - 1; i > 0; i-- {
+		j := r.Intn(i + 1)
+		attack[i], attack[j] = attack[j], attack[i]
+	}
+	plain := bundle.WithKey([]byte("k"), key, trusted)
+	cache := bundle.NewVerificationCache(plain, time.Hour, 64)
+	answer := func(v bundle.Verifier, hdr string) string {
+		b, err := bundle.ParseBundle(loc, hdr)
+		if err != nil {
+			return "parse error"
+		}
+		sets, err := b.Verify(context.Background(), v)
+		if err != nil {
+			return "rejected"
+		}
+		out := "accepted"
+		for _, s := range sets {
+			enc, _ := s.MarshalMsgpack()
+			out += fmt.Sprintf(" %x", enc)
+		}
+		return out
+	}
+	for i, p := range prime {
+		if a := answer(cache, p.hdr); !strings.HasPrefix(a, "accepted") {
+			return fmt.Sprintf("setup: %s is %s", p.what, a)
+		}
+		if i == 0 && r.Bool() {
+			break
+		}
+	}
+	for _, p := range attack {
+		got, want := answer(cache, p.hdr), answer(plain, p.hdr)
+		if got != want {
+			if len(got) > 80 {
+				got = got[:80] + "…"
+			}
+			if len(want) > 80 {
+				want = want[:80] + "…"
+			}
+			return fmt.Sprintf("after a genuine presentation was accepted through the verification cache, %s is answered %q by the cache and %q by the verifier behind it", p.what, got, want)
+		}
 	}
 	return ""
 }
